@@ -11,7 +11,9 @@
     - Part 2: [omerge] of two values without pending removes; the member table of the entry
       [mmerge_entry] builds, per member and actor, as an arithmetic function [kmF] of the map
       clocks, entry clocks and witness counters of both sides ([mmerge_entry_km]); replay of
-      pending tables ([mfold_vrel_gen]). *)
+      pending tables ([mfold_vrel_gen], [mmerge_entries_vrel]).
+    - Part 3: the arithmetic of [kmF] in the two cases of the fragment: a key no remove names
+      ([kmF_unnamed]: the join), a key named by a remove, updated once by the actor ([kmF_named]). *)
 From stdpp Require Import gmap.
 From Crdt Require Import model.Orswot model.Map spec.System spec.OrswotSpec spec.OrswotSystem
   spec.MapSpec spec.MapSystem spec.MapOrswotSpec spec.MapOrswotKM proofs.VClock proofs.Reset proofs.OrswotLayer
